@@ -139,11 +139,12 @@ fn acked_records(events: &[Value], upto: usize, vids: &HashMap<(i64, u64), u64>)
     v
 }
 
-async fn recover(dir: &Path, validate: bool, nkeys: u64, payloads: &HashMap<u64, Vec<u8>>, acked: &[(i64, u64, u64, u64)]) -> Outcome {
+async fn recover(dir: &Path, validate: bool, ignore: bool, nkeys: u64, payloads: &HashMap<u64, Vec<u8>>, acked: &[(i64, u64, u64, u64)]) -> Outcome {
     let mut o = Outcome::default();
     let mut cfg = HCfg::default();
     cfg.ks = N;
     cfg.validate_regen = validate;
+    cfg.ignore_corrupted = ignore;
     let mut d = Driver::<N>::new(cfg.clone(), dir.to_path_buf(), nkeys);
     match d.open(false).await {
         Ok(()) => o.init_ok = true,
@@ -175,8 +176,18 @@ async fn recover(dir: &Path, validate: bool, nkeys: u64, payloads: &HashMap<u64,
             }
         }
     }
-    // quarantined files and what the recovery tool gets out of them
-    for (id, is_index, p) in list_files(&dir.join(CORRUPTED_DIR)) {
+    // quarantined files (with ignore_corrupted: unreadable blobs left in place and not served) and what
+    // the recovery tool gets out of them
+    let mut aside: Vec<(u64, bool, PathBuf)> = list_files(&dir.join(CORRUPTED_DIR));
+    if ignore {
+        let served_blobs: std::collections::HashSet<u64> = o.served.iter().map(|s| s.0).collect();
+        let acked_blobs: std::collections::HashSet<u64> = acked.iter().map(|a| a.0 as u64).collect();
+        for (id, is_index, p) in list_files(dir) {
+            // a blob with acknowledged records none of which is served was ignored by init
+            if !is_index && acked_blobs.contains(&id) && !served_blobs.contains(&id) { aside.push((id, false, p)); }
+        }
+    }
+    for (id, is_index, p) in aside {
         if is_index { continue; }
         o.quarantined.push(id);
         let out = dir.join(format!("restored-{}.blob", id));
@@ -420,7 +431,7 @@ fn main() {
             let logs = file_logs(&events, cp);
             let acked = acked_records(&events, cp, &vids);
             for img in images(&logs, dense) {
-                for validate in [false, true] {
+                for (validate, ignore) in [(false, false), (true, false), (false, true)] {
                     imgs += 1;
                     *by_kind.entry(img.label.split('@').next().unwrap_or("").split("-write").next().unwrap_or("").to_string()).or_default() += 1;
                     let work = root.join("img");
@@ -430,11 +441,11 @@ fn main() {
                     if sample.is_none() { sample = Some(json!({"behaviour": beh.steps.iter().map(|s| s.act.a.clone()).collect::<Vec<_>>(), "crash_after_event": cp, "image": img.label})); }
                     let (w2, pl2, ak2) = (work.clone(), payloads.clone(), acked.clone());
                     rec.enabled.store(false, std::sync::atomic::Ordering::SeqCst);
-                    let res = rt.block_on(async move { tokio::spawn(async move { recover(&w2, validate, nkeys, &pl2, &ak2).await }).await });
+                    let res = rt.block_on(async move { tokio::spawn(async move { recover(&w2, validate, ignore, nkeys, &pl2, &ak2).await }).await });
                     rec.enabled.store(true, std::sync::atomic::Ordering::SeqCst);
                     let _ = rec.drain();
                     let sig: Vec<String> = beh.steps.iter().map(|s| s.act.a.clone()).collect();
-                    let case = json!({"behaviour": sig, "crash_after_event": cp, "image": img.label, "validate": validate});
+                    let case = json!({"behaviour": sig, "crash_after_event": cp, "image": img.label, "validate": validate, "ignore_corrupted": ignore});
                     match res {
                         Ok(o) => {
                             let mut direct = Vec::new();
